@@ -2,8 +2,9 @@
 import json, os
 from vlib import *
 
+LEAVES = {"jetV", "jetA", "jetL", "word0", "word1", "word", "leaf", "jet"}       # the harness describes jets and words as "leaf"
 def strip(dag):
-    return [[n[0], n[1], n[2]] for n in dag]
+    return [["leaf" if n[0] in LEAVES else n[0], n[1], n[2]] for n in dag]
 
 def post_order_form(dag):
     """the DAG renumbered by a post-order walk from its root (children before parents, left before right, each once)"""
@@ -58,8 +59,11 @@ def judge(case, g, one_one_only=False):
             return ("c08:c-cmr", "C computes CMR %s, Rust %s" % (c["cmr"], g["cmr"]))
     if case is not None:
         # same output at the pruned type, as the spec computes it
+        # (when the root arrows agree: the property is about unit-to-unit programs; for other roots the crate may keep a
+        #  wider target type than the pruned program's own principal one -- the recorded finding -- and the values then
+        #  live at different types)
         exp_out = case["pout"]
-        if s["out"] != exp_out:
+        if p["arrow"] == case["pty"][-1] and s["out"] != exp_out:
             return ("c08:output", "pruned program outputs %s, spec %s" % (s["out"], exp_out))
     return None
 
@@ -78,7 +82,7 @@ def body(c):
     got = [json.loads(l)["got"] for l in out.split("\n") if l.strip()]
     if len(got) != len(cases):
         raise ToolError("replay returned %d results for %d cases" % (len(got), len(cases)))
-    notes = {"pruned_dag_differs_from_model": 0, "c_one_one_checked": 0}
+    notes = {"pruned_dag_differs_from_model": 0, "c_one_one_checked": 0, "root_arrow_differs_from_model_not_unit_to_unit": 0}
     for case, g in zip(cases, got):
         c.evaluations += 1
         v = judge(case, g)
@@ -93,6 +97,7 @@ def body(c):
                 c.report("c08:pruned-program-differs-from-model", "dag=%s aux=%s: the crate prunes to %s, Prune.tla to %s" % (
                     strip(case["dag"]), case["aux"], post_order_form(strip(pp["dag"])), post_order_form(strip(case["pdag"]))), {"dir": "spec->impl", "case": case, "got": g})
         if g.get("prune", {}).get("arrow") == [["1"], ["1"]]: notes["c_one_one_checked"] += 1
+        elif g.get("prune", {}).get("res") == "ok" and g["prune"].get("arrow") != case["pty"][-1]: notes["root_arrow_differs_from_model_not_unit_to_unit"] += 1
     c.extra["notes"] = notes
     c.sample({"program": cases[0]["dag"], "witnesses": cases[0]["aux"], "pruned": cases[0]["pdag"]})
     # impl -> spec: generated 1->1 programs with cases at depth, shared cases, jets, disconnect
